@@ -61,6 +61,9 @@ func (g *coreGen) intExpr(d int) Node {
 		}
 		return cn("dollar")
 	}
+	if !g.inFn && g.r.Intn(7) == 0 {
+		return g.containerRead()
+	}
 	if d <= 0 {
 		if g.r.Intn(2) == 0 {
 			return g.num(g.r.Intn(10))
@@ -177,6 +180,123 @@ func (g *coreGen) anyExpr(d int) Node {
 	}
 }
 
+// keys of the model's key universe (spec/JqCore.tla KeyUniverse) used as object keys
+var coreKeys = []string{"a", "b", "c", "k", "n", "ab", "bc", "Zq", "x y", "0", "7"}
+
+func (g *coreGen) keyExpr() Node {
+	switch g.r.Intn(6) {
+	case 0:
+		return cn("num", "v", g.r.Intn(5))
+	case 1:
+		if g.inRule {
+			return cn("index")
+		}
+		return cn("str", "v", g.pick("a", "b"))
+	case 2:
+		if g.inRule {
+			return cn("idx", "n", "$", "key", map[string]any(cn("str", "v", g.pick("a", "n"))))
+		}
+		return cn("str", "v", g.pick("k", "n"))
+	default:
+		return cn("str", "v", g.pick(coreKeys...))
+	}
+}
+
+func (g *coreGen) arrIndex() Node {
+	switch g.r.Intn(6) {
+	case 0:
+		return g.num(-1)
+	case 1:
+		return g.num(-2)
+	case 2:
+		return cn("var", "n", g.pick("i", "g1"))
+	default:
+		return cn("num", "v", g.r.Intn(6))
+	}
+}
+
+// containerRead: an expression that reads an array element, an object member, a length, or $'s members
+func (g *coreGen) containerRead() Node {
+	switch g.r.Intn(7) {
+	case 0, 1:
+		return cn("idx", "n", g.pick("r0", "r1"), "key", map[string]any(g.arrIndex()))
+	case 2:
+		return cn("idx", "n", g.pick("o0", "cnt"), "key", map[string]any(g.keyExpr()))
+	case 3:
+		return cn("mcall", "n", g.pick("r0", "r1", "o0", "s0"), "m", "length", "args", []any{})
+	case 4:
+		if g.inRule {
+			return cn("idx", "n", "$", "key", map[string]any(cn("str", "v", g.pick("a", "n", "b"))))
+		}
+		return cn("mcall", "n", "r1", "m", "length", "args", []any{})
+	case 5:
+		return cn("var", "n", g.pick("r1", "o0")) // a container used as a value (truthy, number 0, string form "")
+	default:
+		// (pop is only used as a statement of its own: inside a larger expression the order in which the
+		// target cell is resolved and the array shrinks is not fixed by the statement)
+		return cn("idx", "n", "r1", "key", map[string]any(g.num(0)))
+	}
+}
+
+func (g *coreGen) elemExpr() Node {
+	switch g.r.Intn(6) {
+	case 0:
+		return g.strExpr(1)
+	case 1:
+		return cn("arr", "items", []any{map[string]any(g.intExpr(1)), map[string]any(g.strExpr(1))})
+	case 2:
+		return cn("obj", "keys", []any{"k", "a"}, "vals", []any{map[string]any(g.intExpr(1)), map[string]any(g.anyExpr(1))})
+	default:
+		return g.intExpr(2)
+	}
+}
+
+// containerStmt: statements on arrays and objects (never through an alias: see the open finding alias-length)
+func (g *coreGen) containerStmt(d int) Node {
+	ex := func(e Node) Node { return cn("expr", "e", map[string]any(e)) }
+	switch g.r.Intn(12) {
+	case 0, 1:
+		return ex(cn("mcall", "n", g.pick("r0", "r1"), "m", "push", "args", []any{map[string]any(g.elemExpr())}))
+	case 2:
+		return ex(cn("asgidx", "n", g.pick("r0", "r1"), "key", map[string]any(g.arrIndex()), "op", g.pick("=", "=", "+=", "-="), "e", map[string]any(g.intExpr(1))))
+	case 3:
+		return ex(cn("asgidx", "n", "o0", "key", map[string]any(g.keyExpr()), "op", g.pick("=", "=", "+="), "e", map[string]any(g.anyExpr(1))))
+	case 4, 5:
+		// the counting idiom of the README: cnt[key]++ on a variable that may not exist yet
+		return ex(cn("incidx", "n", "cnt", "key", map[string]any(g.keyExpr()), "op", g.pick("++", "++", "--"), "post", true))
+	case 6:
+		return cn("print", "args", []any{map[string]any(cn("var", "n", g.pick("r0", "r1", "o0", "cnt")))})
+	case 7:
+		return cn("print", "args", []any{map[string]any(cn("str", "v", "len")), map[string]any(cn("mcall", "n", g.pick("r0", "r1", "o0", "cnt", "s0"), "m", "length", "args", []any{}))})
+	case 8, 9:
+		g.nloop++
+		v1, v2 := fmt.Sprintf("e%d", g.nloop), ""
+		if g.r.Intn(2) == 0 {
+			v2 = fmt.Sprintf("x%d", g.nloop)
+		}
+		g.inLoop++
+		body := g.block(d-1, 1+g.r.Intn(2))
+		g.inLoop--
+		args := []any{map[string]any(cn("str", "v", "it")), map[string]any(cn("var", "n", v1))}
+		if v2 != "" {
+			args = append(args, map[string]any(cn("var", "n", v2)))
+		}
+		body["b"] = append([]any{map[string]any(cn("print", "args", args))}, body["b"].([]any)...)
+		it := g.pick("r0", "r1", "o0", "cnt", "s0")
+		if g.inRule && g.r.Intn(3) == 0 {
+			it = "$"
+		}
+		return cn("forin", "v1", v1, "v2", v2, "n", it, "b", map[string]any(body))
+	case 10:
+		return ex(cn("asg", "n", "pv", "op", "=", "e", map[string]any(cn("mcall", "n", g.pick("r0", "r1"), "m", "pop", "args", []any{}))))
+	default:
+		if g.inRule {
+			return ex(cn("asgidx", "n", "$", "key", map[string]any(cn("str", "v", g.pick("a", "c"))), "op", "=", "e", map[string]any(g.intExpr(1))))
+		}
+		return ex(cn("asgidx", "n", "o0", "key", map[string]any(cn("str", "v", "k")), "op", "=", "e", map[string]any(cn("arr", "items", []any{map[string]any(g.intExpr(1))}))))
+	}
+}
+
 func (g *coreGen) block(d, n int) Node {
 	b := make([]any, 0, n)
 	for i := 0; i < n; i++ {
@@ -227,6 +347,9 @@ func (g *coreGen) stmt(d int) Node {
 			}
 			return cn("print", "args", []any{map[string]any(g.intExpr(1))})
 		}
+	}
+	if !g.inFn && g.r.Intn(4) == 0 {
+		return g.containerStmt(d)
 	}
 	if d <= 0 {
 		return simple()
@@ -340,6 +463,9 @@ func (g *coreGen) program() Node {
 		stmts = append(stmts, map[string]any(cn("expr", "e", map[string]any(cn("asg", "n", v, "op", "=", "e", map[string]any(g.num(1+g.r.Intn(6))))))))
 	}
 	stmts = append(stmts, map[string]any(cn("expr", "e", map[string]any(cn("asg", "n", "s0", "op", "=", "e", map[string]any(cn("str", "v", "ab")))))))
+	stmts = append(stmts, map[string]any(cn("expr", "e", map[string]any(cn("asg", "n", "r0", "op", "=", "e", map[string]any(cn("arr", "items", []any{})))))))
+	stmts = append(stmts, map[string]any(cn("expr", "e", map[string]any(cn("asg", "n", "r1", "op", "=", "e", map[string]any(cn("arr", "items", []any{map[string]any(g.num(3)), map[string]any(cn("str", "v", "bc")), map[string]any(g.num(5))})))))))
+	stmts = append(stmts, map[string]any(cn("expr", "e", map[string]any(cn("asg", "n", "o0", "op", "=", "e", map[string]any(cn("obj", "keys", []any{"b", "a"}, "vals", []any{map[string]any(g.num(2)), map[string]any(cn("str", "v", "Zq"))})))))))
 	n := 1 + g.r.Intn(4)
 	for i := 0; i < n; i++ {
 		stmts = append(stmts, map[string]any(g.stmt(3)))
@@ -365,13 +491,23 @@ func (g *coreGen) program() Node {
 		rules = append(rules, map[string]any{"pat": pat, "body": map[string]any(body)})
 	}
 	g.inRule = false
-	end := []any{map[string]any(cn("print", "args", []any{map[string]any(cn("str", "v", "end")), map[string]any(cn("var", "n", "g0")), map[string]any(cn("var", "n", "g1")), map[string]any(cn("var", "n", "s0")), map[string]any(cn("dollar"))}))}
+	end := []any{map[string]any(cn("print", "args", []any{map[string]any(cn("str", "v", "end")), map[string]any(cn("var", "n", "g0")), map[string]any(cn("var", "n", "g1")), map[string]any(cn("var", "n", "s0")), map[string]any(cn("dollar"))})),
+		map[string]any(cn("print", "args", []any{map[string]any(cn("var", "n", "r0")), map[string]any(cn("var", "n", "r1")), map[string]any(cn("var", "n", "o0"))})),
+		map[string]any(cn("if", "c", map[string]any(cn("var", "n", "cnt")), "th", map[string]any(cn("block", "b", []any{map[string]any(cn("print", "args", []any{map[string]any(cn("str", "v", "cnt")), map[string]any(cn("var", "n", "cnt"))}))})), "el", map[string]any(cn("none"))))}
 	if g.r.Intn(2) == 0 {
 		end = append([]any{map[string]any(g.stmt(2))}, end...)
 	}
 	input := []any{}
 	for k := g.r.Intn(5); k > 0; k-- {
-		switch g.r.Intn(8) {
+		switch g.r.Intn(11) {
+		case 8, 9, 10:
+			keys := []any{"a", "n"}
+			vals := []any{map[string]any(cn("str", "v", g.pick("a", "bc", "Zq", "k"))), map[string]any(cn("num", "v", g.r.Intn(9)))}
+			if g.r.Intn(2) == 0 {
+				keys = append(keys, "b")
+				vals = append(vals, map[string]any(cn(g.pick("null", "bool"), "v", true)))
+			}
+			input = append(input, map[string]any(cn("obj", "keys", keys, "vals", vals)))
 		case 0:
 			input = append(input, map[string]any(cn("null")))
 		case 1:
@@ -413,6 +549,31 @@ func coreExpr(e Node) string {
 			parts = append(parts, coreExpr(a))
 		}
 		return nstr(e, "f") + "(" + strings.Join(parts, ", ") + ")"
+	case "arr":
+		parts := []string{}
+		for _, a := range nlist(e, "items") {
+			parts = append(parts, coreExpr(a))
+		}
+		return "[" + strings.Join(parts, ", ") + "]"
+	case "obj":
+		parts := []string{}
+		vals := nlist(e, "vals")
+		for i, k := range e["keys"].([]any) {
+			parts = append(parts, strconv.Quote(k.(string))+": "+coreExpr(vals[i]))
+		}
+		return "{" + strings.Join(parts, ", ") + "}"
+	case "idx":
+		return nstr(e, "n") + "[" + coreExpr(nnode(e, "key")) + "]"
+	case "asgidx":
+		return nstr(e, "n") + "[" + coreExpr(nnode(e, "key")) + "] " + nstr(e, "op") + " " + coreExpr(nnode(e, "e"))
+	case "incidx":
+		return nstr(e, "n") + "[" + coreExpr(nnode(e, "key")) + "]" + nstr(e, "op")
+	case "mcall":
+		parts := []string{}
+		for _, a := range nlist(e, "args") {
+			parts = append(parts, coreExpr(a))
+		}
+		return nstr(e, "n") + "." + nstr(e, "m") + "(" + strings.Join(parts, ", ") + ")"
 	case "asg":
 		return nstr(e, "n") + " " + nstr(e, "op") + " " + coreExpr(nnode(e, "e"))
 	case "inc":
@@ -456,6 +617,12 @@ func coreStmt(s Node, depth int) string {
 		return out
 	case "while":
 		return in + "while (" + coreExpr(nnode(s, "c")) + ") " + strings.TrimLeft(coreStmt(nnode(s, "b"), depth), " ")
+	case "forin":
+		head := nstr(s, "v1")
+		if nstr(s, "v2") != "" {
+			head += ", " + nstr(s, "v2")
+		}
+		return in + "for (" + head + " in " + nstr(s, "n") + ") " + strings.TrimLeft(coreStmt(nnode(s, "b"), depth), " ")
 	case "for":
 		return in + "for (" + coreExpr(nnode(s, "init")) + "; " + coreExpr(nnode(s, "c")) + "; " + coreExpr(nnode(s, "post")) + ") " + strings.TrimLeft(coreStmt(nnode(s, "b"), depth), " ")
 	case "break", "continue", "exit", "next":
@@ -521,6 +688,22 @@ func coreInput(p Node) string {
 			parts = append(parts, strconv.Quote(nstr(x, "v")))
 		case "bool":
 			parts = append(parts, strconv.FormatBool(nbool(x, "v")))
+		case "obj":
+			kv := []string{}
+			vals := nlist(x, "vals")
+			for i, k := range x["keys"].([]any) {
+				v := "null"
+				switch nstr(vals[i], "k") {
+				case "num":
+					v = strconv.Itoa(nint(vals[i], "v"))
+				case "str":
+					v = strconv.Quote(nstr(vals[i], "v"))
+				case "bool":
+					v = strconv.FormatBool(nbool(vals[i], "v"))
+				}
+				kv = append(kv, strconv.Quote(k.(string))+": "+v)
+			}
+			parts = append(parts, "{"+strings.Join(kv, ", ")+"}")
 		default:
 			parts = append(parts, "null")
 		}
